@@ -353,7 +353,8 @@ def window_layouts(tb: Table, rng=None):
     out = [(None, None)]
     if n == 0:
         return out
-    cuts = sorted({s[0] - 5, s[0], s[-1], s[-1] + 1, s[-1] + 5, *(s[i] for i in range(n)), *(s[i] + 1 for i in range(n))})
+    idx = range(n) if n <= 16 else sorted({0, 1, 2, n // 3, n // 2, n // 2 + 1, n - 3, n - 2, n - 1})
+    cuts = sorted({s[0] - 5, s[0], s[-1], s[-1] + 1, s[-1] + 5, *(s[i] for i in idx), *(s[i] + 1 for i in idx)})
     for a in [None, *cuts]:
         for b in [None, *cuts]:
             if a is None and b is None:
@@ -409,6 +410,9 @@ def aggregate_workload(ctx, runs) -> None:
                 collected = collect_results(res, how="list")
                 agg = aggregate(collected)
                 store = PandasStore(res)
+                if rng.random() < 0.5:
+                    store.save(write_data=False, write_axes=False)  # history: the store was saved before the roll-up
+                    ctx.count("aggregate.saved_before_rollup")
                 store.compute_aggregate(name="rollup")
                 df = store.save(write_data=False, write_axes=False)
             except Exception as e:  # noqa: BLE001
